@@ -1,0 +1,89 @@
+//go:build verif
+
+// Contracts for package printer (machine-checked by /verif/engine; comment-only file).
+//
+// The parser's postcondition is the printer's precondition: a directive whose ranges satisfy the ok*
+// tree predicates of package parser can be rendered without any slicing error, and Format copies the
+// text between the directives verbatim, in order, printing every directive exactly once.
+package printer
+
+// Printability: every leaf range the printer extracts lies inside ITS OWN text (after `knut infer` an
+// account range points into a synthetic text, so this is weaker than the parser's `within` tree).
+//@ def prBooking(b directives.Booking) bool := inText(b.Credit.Range) && inText(b.Debit.Range) && inText(b.Quantity.Range) && inText(b.Commodity.Range)
+//@ def prBalance(b directives.Balance) bool := inText(b.Account.Range) && inText(b.Quantity.Range) && inText(b.Commodity.Range)
+//@ def prAccrual(a directives.Accrual) bool := inText(a.Interval.Range) && inText(a.Start.Range) && inText(a.End.Range) && inText(a.Account.Range)
+//@ def prPerformance(x directives.Performance) bool := forall i int :: {x.Targets[i].Range.Start} 0 <= i && i < len(x.Targets) ==> inText(x.Targets[i].Range)
+//@ def prTransaction(t directives.Transaction) bool := inText(t.Date.Range) && inText(t.Description.Content)
+//@     && (forall i int :: {t.Bookings[i].Range.Start} 0 <= i && i < len(t.Bookings) ==> prBooking(t.Bookings[i]))
+//@     && (t.Addons.Accrual.Range.Start != t.Addons.Accrual.Range.End ==> prAccrual(t.Addons.Accrual))
+//@     && (t.Addons.Performance.Range.Start != t.Addons.Performance.Range.End ==> prPerformance(t.Addons.Performance))
+//@ def prOpen(o directives.Open) bool := inText(o.Date.Range) && inText(o.Account.Range)
+//@ def prClose(o directives.Close) bool := inText(o.Date.Range) && inText(o.Account.Range)
+//@ def prAssertion(x directives.Assertion) bool := inText(x.Date.Range)
+//@     && (forall i int :: {x.Balances[i].Range.Start} 0 <= i && i < len(x.Balances) ==> prBalance(x.Balances[i]))
+//@ def prPrice(x directives.Price) bool := inText(x.Date.Range) && inText(x.Commodity.Range) && inText(x.Price.Range) && inText(x.Target.Range)
+//@ def prInclude(x directives.Include) bool := inText(x.IncludePath.Content)
+//@ def renderable(d directives.Directive) bool :=
+//@     (typeIs(d.Directive, "directives.Open") ==> prOpen(dyn(d.Directive, "directives.Open")))
+//@     && (typeIs(d.Directive, "directives.Close") ==> prClose(dyn(d.Directive, "directives.Close")))
+//@     && (typeIs(d.Directive, "directives.Price") ==> prPrice(dyn(d.Directive, "directives.Price")))
+//@     && (typeIs(d.Directive, "directives.Assertion") ==> prAssertion(dyn(d.Directive, "directives.Assertion")))
+//@     && (typeIs(d.Directive, "directives.Include") ==> prInclude(dyn(d.Directive, "directives.Include")))
+//@     && (typeIs(d.Directive, "directives.Transaction") ==> prTransaction(dyn(d.Directive, "directives.Transaction")))
+// A file is printable when its directives are renderable and their ranges are increasing, disjoint
+// positions inside the file's text.
+//@ def prFile(f directives.File) bool := (forall i int :: {f.Directives[i]} 0 <= i && i < len(f.Directives) ==>
+//@         renderable(f.Directives[i]) && 0 <= f.Directives[i].Range.Start && f.Directives[i].Range.Start <= f.Directives[i].Range.End && f.Directives[i].Range.End <= len(f.Range.Text))
+//@     && (forall i int :: {f.Directives[i]} 0 < i && i < len(f.Directives) ==> f.Directives[i-1].Range.End <= f.Directives[i].Range.Start)
+//
+//@ func (*Printer).Write
+//@   requires p != nil
+//@   modifies p.count
+//
+//@ func (*Printer).printTransaction
+//@   requires p != nil && prTransaction(t)
+//@   modifies p.count
+//@   loop 1 invariant 0 <= $i && $i <= len($range)
+//@   loop 2 invariant 0 <= $i && $i <= len($range)
+//
+//@ func (*Printer).printAssertion
+//@   requires p != nil && prAssertion(a)
+//@   modifies p.count
+//@   loop 1 invariant 0 <= $i && $i <= len($range)
+//
+//@ func (*Printer).printDirective
+//@   requires p != nil && renderable(directive)
+//@   modifies p.count
+//
+//@ func (*Printer).PrintDirective
+//@   requires p != nil && renderable(directive)
+//@   modifies p.count
+//
+// Initialize: the padding is at least the rune length of every credit and debit account of every
+// transaction (so the columns of all bookings line up).
+//@ func (*Printer).Initialize
+//@   requires p != nil && (forall i int :: {directive[i]} 0 <= i && i < len(directive) ==> renderable(directive[i]))
+//@   modifies p.padding
+//@   ensures p.padding >= old(p.padding)
+//@   loop 1 invariant 0 <= $i && $i <= len($range) && p.padding >= old(p.padding)
+//@   loop 2 invariant 0 <= $i && $i <= len($range) && p.padding >= old(p.padding)
+//
+// Format: the output is gap_0, print(d_0), gap_1, ..., print(d_n-1), gap_n where gap_k is the text
+// between the end of directive k-1 (or the start of the text) and the start of directive k (or the end
+// of the text): every byte outside the directives is written exactly once, unchanged and in order,
+// and every directive is printed exactly once in order.
+//@ func (*Printer).Format
+//@   requires p != nil && prFile(f)
+//@   modifies p.count, p.padding
+//@   callback Write=0
+//@   callback PrintDirective=0
+//@   ensures @cover: result == nil ==> tlen() == old(tlen()) + 2 * len(f.Directives) + 1
+//@   ensures @gaps: result == nil ==> (forall k int :: {f.Directives[k]} 0 <= k && k < len(f.Directives) ==>
+//@            strOf(targ("Write", 0, old(tlen()) + 2 * k)) == f.Text[(k == 0 ? 0 : f.Directives[k-1].End) : f.Directives[k].Start]
+//@            && targ("PrintDirective", 0, old(tlen()) + 2 * k + 1) == f.Directives[k])
+//@   ensures @tail: result == nil ==> strOf(targ("Write", 0, old(tlen()) + 2 * len(f.Directives))) == f.Text[(len(f.Directives) == 0 ? 0 : f.Directives[len(f.Directives)-1].End) : len(f.Text)]
+//@   loop 1 invariant 0 <= $i && $i <= len($range) && tlen() == old(tlen()) + 2 * $i && 0 <= pos && pos <= len(text) && text == f.Text
+//@   loop 1 invariant pos == ($i == 0 ? 0 : f.Directives[$i-1].End)
+//@   loop 1 invariant forall k int :: {f.Directives[k]} 0 <= k && k < $i ==>
+//@            strOf(targ("Write", 0, old(tlen()) + 2 * k)) == f.Text[(k == 0 ? 0 : f.Directives[k-1].End) : f.Directives[k].Start]
+//@            && targ("PrintDirective", 0, old(tlen()) + 2 * k + 1) == f.Directives[k]
